@@ -45,3 +45,15 @@ CHECKS['C19'] = dict(
         'source regions are inside the topology; graph link probabilities are in [0,1]',
         'concurrency is explored with 4 real threads (x86-TSO interleavings only), each using its own LP context',
     ])
+
+CHECKS['C14'] = dict(
+    stages=[
+        stage('h_partition', ['h_partition.c'], exclude=['lp/lp.c'],
+              quick=dict(cases=48000, min_nontrivial=2000, time_budget=120),
+              thorough=dict(cases=960000, min_nontrivial=20000, time_budget=900)),
+    ],
+    assumptions=[
+        'lp.c is compiled from /repo with its per-LP construction callees replaced by recording stubs; the partition '
+        'arithmetic, range variables and routing macros are the real ones',
+        'ranks <= 64 and threads <= 64 per rank; LPs <= 2^21',
+    ])
